@@ -45,7 +45,12 @@ def build_decls(rng, subs, n_containers=None, n_plates=None):
             else:
                 init.append((s, f'{rng.randint(1, 40) * 50} mg'))
         cap = rng.choice([None, None, f'{rng.randint(400, 900)} mL'])
-        decls.append({'type': 'container', 'name': f'c{i}', 'max': cap, 'init': init})
+        name = f'c{i}'
+        if i == 0 and rng.random() < 0.2:
+            # a container that happens to carry the name of a substance (a reservoir 'H2O' holding H2O): objects and
+            # substances live in different namespaces and must not be confused
+            name = rng.choice(liqs).name
+        decls.append({'type': 'container', 'name': name, 'max': cap, 'init': init})
     if rng.random() < 0.5:
         decls.append({'type': 'container', 'name': 'e0', 'max': rng.choice([None, '500 mL']), 'init': []})
     for i in range(n_plates if n_plates is not None else rng.randint(1, 3)):
@@ -178,12 +183,12 @@ def stage_ranges(steps):
 # ==================================================================================================
 # Recipe API
 
-def to_recipe(decls, steps, only_names=None):
-    """Build a Recipe for `steps` declaring the objects it uses.  -> (recipe, handles)"""
+def to_recipe(decls, steps, only_names=None, declare=()):
+    """Build a Recipe for `steps` declaring the objects it uses (+ `declare`).  -> (recipe, handles)"""
     pp = PP()
     objs = make_objs(decls)
     r = pp.Recipe()
-    used = set()
+    used = set(declare)
     for s in steps:
         used.update(touched(s))
     created = {creates(s) for s in steps if creates(s)}
@@ -578,9 +583,17 @@ def run_recipe_case(rng, case, idx, focus=None):
         case['kf05'] = True
     with M.oracle():
         prog = gen_program(rng, case, focus)
-    rs = real_steps(prog['steps'])
-    if not rs:
+    if not real_steps(prog['steps']):
         return
+    # "forgot to use a declared object": one declared container is used by the *last* step only; through the Recipe
+    # API that step is added after a first, refused, bake - which must leave the recipe (steps, results, open stage)
+    # as it was, so that everything downstream equals the program with that step in place
+    forgot = (idx % 4 == 0) and prog['infeasible_at'] is None
+    if forgot:
+        prog['decls'] = prog['decls'] + [{'type': 'container', 'name': 'zz_forgot', 'max': None,
+                                          'init': [(liquids(prog['subs'])[0], '1 mL'), (prog['subs'][0], '2 U' if prog['subs'][0].is_enzyme() else '3 mg')]}]
+        prog['steps'] = prog['steps'] + [{'op': 'remove', 'dst': ['zz_forgot', None], 'what': R.SOLID}]
+    rs = real_steps(prog['steps'])
     pdesc = describe_program(prog)
     n = len(rs)
     # ---------------- eager fold (monitors on: the direct operations are watched too)
@@ -598,7 +611,6 @@ def run_recipe_case(rng, case, idx, focus=None):
             except Exception as e:   # noqa
                 eager_exc = (k, e)
                 break
-    forgot = (idx % 5 == 0) and case.get('prop') in ('C08', 'C16', None)
     # ---------------- through the Recipe API (monitors on: nested operations inside bake are watched)
     bake_exc = None
     res = None
@@ -607,14 +619,8 @@ def run_recipe_case(rng, case, idx, focus=None):
     placeholders = {}
     with M.active(case):
         try:
-            r, handles = to_recipe(prog['decls'], prog['steps'])
             if forgot and eager_exc is None:
-                # "forgot to use a declared object": the refused bake must leave the recipe as it was, so that baking
-                # after the missing step has been added equals the eager fold of all steps
-                with M.oracle():
-                    extra = pp.Container('zz_forgot', initial_contents=[(liquids(prog['subs'])[0], '1 mL')])
-                r.uses(extra)
-                handles['zz_forgot'] = extra
+                r, handles = to_recipe(prog['decls'], prog['steps'][:-1], declare=['zz_forgot'])
                 M.count('C08.rebake')
                 M.bucket('C08/rebake_after_refused_bake')
                 try:
@@ -622,9 +628,9 @@ def run_recipe_case(rng, case, idx, focus=None):
                     M.violate(['C08', 'C16'], 'BAKE', 'C08:bake_with_unused_declared_object_accepted', {'program': pdesc})
                 except ValueError:
                     pass
-                r.remove(extra, R.ENZYME)
-                with M.oracle():
-                    eager_states[-1] = dict(eager_states[-1], zz_forgot=extra.remove(R.ENZYME))
+                add_step(r, handles, prog['steps'][-1])
+            else:
+                r, handles = to_recipe(prog['decls'], prog['steps'])
             placeholders = {nme: F.fingerprint(o) for nme, o in handles.items()}
             pre_bake = {nme: F.fingerprint(o) for nme, o in handles.items()}
             res = r.bake()
@@ -642,7 +648,7 @@ def run_recipe_case(rng, case, idx, focus=None):
     if reuse and bake_exc is None and eager_exc is None:
         M.note_nontrivial('C08', repr(pdesc)[:3000])
         M.sample('C08', {'program': pdesc, 'result_names': sorted(res)}, cap=3)
-    if res is None or eager_exc is not None or forgot:
+    if res is None or eager_exc is not None:
         return
     conforming = all(same_state(eager_states[-1][nme], res[nme]) is None for nme in res if nme in eager_states[-1])
     # ---------------- ledger from prefix bakes
